@@ -153,6 +153,64 @@ func (p *c19pairs) responsible(f *ssa.Function, call *ssa.Call) string {
 	return ""
 }
 
+// callersTest: every caller of f is known and checked by the rule (callersChecked) AND compares the error of each of
+// its calls of f with nil itself - it does not merely hand the tuple further up (which would make f and its caller
+// vouch for each other). The rule's part B then shows for each of these calls that no component of the tuple is used
+// before that test or on the non-nil edge.
+func (p *c19pairs) callersTest(f *ssa.Function) bool {
+	if !p.callersChecked(f) {
+		return false
+	}
+	n := 0
+	for _, g := range p.callers[f] {
+		for _, ci := range core.Calls(g) {
+			if ci.Common().IsInvoke() || ci.Common().StaticCallee() != f {
+				continue
+			}
+			call, ok := ci.(*ssa.Call)
+			if !ok {
+				return false // go / defer: the results are dropped
+			}
+			tp, ok := call.Type().(*types.Tuple)
+			if !ok {
+				return false
+			}
+			var errX *ssa.Extract
+			for _, u := range core.Referrers(call) {
+				if ex, ok := u.(*ssa.Extract); ok && ex.Index == tp.Len()-1 {
+					errX = ex
+				}
+			}
+			if errX == nil || len(c19NilTests(c19PhiClosure(errX))) == 0 {
+				return false
+			}
+			n++
+		}
+	}
+	return n > 0
+}
+
+func (p *c19pairs) callersVouch(f *ssa.Function) string {
+	return "every caller of " + core.FuncKey(f) + " is checked by this rule and tests the error of the call before using any of its values"
+}
+
+// c19ErrOfCall: ev is the error component (last result) of a call's tuple.
+func c19ErrOfCall(ev ssa.Value) *ssa.Call {
+	ex, ok := ev.(*ssa.Extract)
+	if !ok {
+		return nil
+	}
+	call, ok := ex.Tuple.(*ssa.Call)
+	if !ok {
+		return nil
+	}
+	tp, ok := call.Type().(*types.Tuple)
+	if !ok || ex.Index != tp.Len()-1 || !c19IsError(tp.At(ex.Index).Type()) {
+		return nil
+	}
+	return call
+}
+
 // c19TupleOf: the error value ev and the values vals are results of one and the same call (vals may also be zero
 // constants): the tuple of that call handed on as it is. Returns the call.
 func c19TupleOf(ev ssa.Value, vals []ssa.Value) *ssa.Call {
@@ -242,6 +300,12 @@ func (p *c19pairs) returnOK(f *ssa.Function, rt *ssa.Return) (how, bad string) {
 				return "the (value, error) tuple of one call is handed up untouched: " + who, ""
 			}
 		}
+		// the error of one call handed up next to values of that call AND values that do not stem from it (a flag
+		// parameter, a constant): nothing the callee guarantees covers those, but when every caller is known and
+		// checked by this rule, each of them tests the error before it uses ANY component of the tuple
+		if call := c19ErrOfCall(ev); call != nil && p.callersTest(f) {
+			return "the error of one call is handed up next to its values and values independent of it: " + p.callersVouch(f), ""
+		}
 		return "", "result #" + itoa(nz) + " is not the zero value"
 	}
 	how, bad = one(rt.Results[last], rt.Results[:last], nil)
@@ -285,7 +349,9 @@ func itoa(i int) string {
 // c19HandedUp: the error of `call` is never tested in f but only returned, and every return that carries it carries
 // (per incoming edge, for a single exit) nothing but values of the same call or zero values. Returns those returns;
 // ok=false when the error has any other use, or is returned next to a foreign value.
-func c19HandedUp(f *ssa.Function, call *ssa.Call, errSet, valSet map[ssa.Value]bool) (rets map[*ssa.Return]bool, ok bool) {
+// foreign=true when some such return also carries a value that is neither zero nor a result of the call (e.g. a flag
+// parameter): then only the callers (all of them known and checked) can vouch for the tuple.
+func c19HandedUp(f *ssa.Function, call *ssa.Call, errSet, valSet map[ssa.Value]bool) (rets map[*ssa.Return]bool, ok bool, foreign bool) {
 	rets = map[*ssa.Return]bool{}
 	for v := range errSet {
 		for _, u := range core.Referrers(v) {
@@ -294,17 +360,17 @@ func c19HandedUp(f *ssa.Function, call *ssa.Call, errSet, valSet map[ssa.Value]b
 			case *ssa.Return:
 				rets[x] = true
 			default:
-				return nil, false
+				return nil, false, false
 			}
 		}
 	}
 	if len(rets) == 0 {
-		return nil, false
+		return nil, false, false
 	}
 	for rt := range rets {
 		last := len(rt.Results) - 1
 		if !errSet[rt.Results[last]] {
-			return nil, false // the error is returned in a value position
+			return nil, false, false // the error is returned in a value position
 		}
 		b := rt.Block()
 		edges := []int{-1}
@@ -327,13 +393,16 @@ func c19HandedUp(f *ssa.Function, call *ssa.Call, errSet, valSet map[ssa.Value]b
 				if i >= 0 {
 					v = c19OnEdge(rt, r, i)
 				}
+				if errSet[v] {
+					return nil, false, false // the error itself in a value position
+				}
 				if !core.IsZeroConst(v) && !valSet[v] {
-					return nil, false
+					foreign = true
 				}
 			}
 		}
 	}
-	return rets, true
+	return rets, true, foreign
 }
 
 // c19TailCall: f returns the result tuple of call untouched, right after the call (`return g(...)`).
